@@ -1,0 +1,40 @@
+//go:build verif
+
+// Contracts for package tinycpm, read by /verif/engine (vcheck).  Comments only.
+
+package tinycpm
+
+// The 64 KiB array memory refines the Memory interface contract (plain byte
+// store, total): no bounds failure is possible for any address.
+
+//@ func (m *Memory) Get(addr uint16) (v uint8)
+//@   layer P
+//@   props C18
+//@   ensures v == m.buf[addr]
+
+//@ func (m *Memory) Set(addr uint16, value uint8)
+//@   layer P
+//@   props C18
+//@   ensures m.buf == vsStoreBuf(old(m.buf), addr, value)
+//@   modifies m.buf
+
+// Console: a write to port 0 reaches the configured writer as exactly that
+// one byte (g.Con is the stream, appended in program order); any other port
+// write and any port read only produce a warning.
+
+//@ func (io *IO) Out(addr uint8, value uint8)
+//@   layer P
+//@   props C18
+//@   requires io.stdout != nil && io.warnl != nil
+//@   ensures g.ConN == old(g.ConN)+uint16(vsB2u8(addr == 0))
+//@   ensures g.Con == vsConAfter(old(g.Con), old(g.ConN), addr == 0, value)
+//@   ensures g.Warns == old(g.Warns)+vsB2u8(addr != 0)
+//@   modifies g.Con, g.ConN, g.Warns
+
+//@ func (io *IO) In(addr uint8) (v uint8)
+//@   layer P
+//@   props C18
+//@   requires io.warnl != nil
+//@   ensures v == 0
+//@   ensures g.Warns == old(g.Warns)+1
+//@   modifies g.Warns
